@@ -605,6 +605,55 @@ MUTANTS = [
            lambda f, t: _move_out_of_with(f, lambda s: isinstance(s, ast.Expr) and u(s) == "worker.process(job)")),
     Mutant("C19", "host-in-format-string", "C19-R3", CO, "URI.location",
            lambda f, t: replace_expr(f, lambda e: u(e) == "'%s:%d' % (self.host, self.port)", "(self.host + ':%d') % self.port")),
+    # ---- rules added after the seventh blind round (DESIGN 10.12)
+    Mutant("C03", "remote-method-cached-in-proxy-dict", "C03-R6", C, "Proxy.__getattr__",
+           lambda f, t: replace_stmt(f, lambda s: isinstance(s, ast.Return) and "_RemoteMethod" in u(s),
+                                     stmts("m = _RemoteMethod(self._pyroInvoke, name, self._pyroMaxRetries)\nself.__dict__[name] = m\nreturn m"))),
+    Mutant("C09", "expose-establishes-default-instance-mode", "C09-R6", S, "expose",
+           lambda f, t: insert_after(f, lambda s: isinstance(s, ast.Expr) and "exposing all members" in u(s), stmts("if '_pyroInstancing' not in clazz.__dict__:\n    clazz._pyroInstancing = ('session', None)"))),
+    Mutant("C12", "annotations-merged-into-the-hooks-dict", "C12-R4", S, "Daemon.__annotations",
+           lambda f, t: setattr(f, "body", stmts("annotations = self.annotations()\nannotations.update(current_context.response_annotations)\nreturn annotations"))),
+    Mutant("C14", "old-tags-removed-only-if-new-tags-given", "C14-R10", NSV, "SqlStorage.__setitem__",
+           lambda f, t: replace_stmt(f, lambda s: isinstance(s, ast.Expr) and "DELETE FROM pyro_metadata" in u(s),
+                                     stmts("if metadata:\n    cursor.execute('DELETE FROM pyro_metadata WHERE object=?', (dbid,))")) or
+           replace_stmt(f, lambda s: isinstance(s, ast.Expr) and "DELETE FROM pyro_names" in u(s), stmts("if metadata:\n    cursor.execute('DELETE FROM pyro_names WHERE id=?', (dbid,))")),
+           also=("C15", "C19")),
+    Mutant("C15", "autocleaner-deletes-through-the-storage", "C15-R1", NSV, "AutoCleaner.run",
+           lambda f, t: replace_expr(f, lambda e: u(e) == "self.nameserver.remove(name)", "self.nameserver.storage.remove_items([name])")),
+    Mutant("C15", "memory-storage-edits-stored-tags", "C15-R1", NSV, "MemoryStorage.__setitem__",
+           lambda f, t: insert_after(f, lambda s: isinstance(s, ast.Assign) and u(s) == "uri, metadata = value",
+                                     stmts("current = self.get(key)\nif current is not None and metadata and current[0] == uri and isinstance(current[1], set):\n    current[1].clear()\n    current[1].update(metadata)\n    return"))),
+    Mutant("C17", "waitall-chosen-by-global-ssl-switch", "C17-R1", SU, "receive_data",
+           lambda f, t: set_test(f, lambda e: "getpeercert" in u(e), "USE_MSG_WAITALL and not config.SSL"), also=("C06", "C08")),
+    Mutant("C18", "worker-returned-from-finally", "C18-R4", ST, "Worker.run",
+           lambda f, t: _worker_finally(f), also=("C05",)),
+    Mutant("C05", "event-cleared-after-notify-done", "C05-R2", ST, "Worker.run",
+           lambda f, t: (delete_stmt(f, lambda s: isinstance(s, ast.Expr) and u(s) == "self.job_available.clear()"),
+                         insert_after(f, lambda s: isinstance(s, ast.Expr) and u(s) == "self.pool.notify_done(self)", stmts("self.job_available.clear()"))), also=("C18",)),
+    Mutant("C13", "stream-closed-before-the-hook", "C13-R3", S, "Daemon._clientDisconnect",
+           lambda f, t: replace_stmt(f, lambda s: isinstance(s, ast.Delete), lambda s: stmts("info[3].close()") + [s])),
+    Mutant("C13", "client-set-after-instance-creation", "C13-R7", S, "Daemon.handleRequest",
+           lambda f, t: (delete_stmt(f, lambda s: isinstance(s, ast.Assign) and u(s) == "current_context.client = conn"),
+                         insert_after(f, lambda s: isinstance(s, ast.If) and u(s.test) == "inspect.isclass(obj)", stmts("current_context.client = conn"))), also=("C12",)),
+    Mutant("C02", "property-read-through-getattr", "C02-R2", S, "_get_exposed_property_value",
+           lambda f, t: replace_expr(f, lambda e: u(e) == "v.fget(obj)", "getattr(obj, propname)"), also=("C07",)),
+    Mutant("C07", "property-written-through-setattr", "C07-R6", S, "_set_exposed_property_value",
+           lambda f, t: replace_expr(f, lambda e: u(e) == "v.fset(obj, value)", "setattr(obj, propname, value)"), also=("C02",)),
+    Mutant("C02", "cache-reset-given-the-weak-reference", "C02-R3", S, "Daemon.resetMetadataCache",
+           lambda f, t: replace_expr(f, lambda e: u(e) == "_unpack_weakref(self.objectsById[uri.object])", "self.objectsById[uri.object]"), also=("C16",)),
+    Mutant("C16", "handshake-lookup-by-truthiness", "C16-R3", S, "DaemonObject.get_metadata",
+           lambda f, t: set_test(f, lambda e: u(e) == "obj is not None", "obj"), also=("C08",)),
+    Mutant("C20", "key-tested-by-membership", "C20-R1", GW, "process_pyro_request",
+           lambda f, t: set_test(f, lambda e: u(e) == "gateway_key != pyro_app.gateway_key", "not gateway_key or gateway_key not in pyro_app.gateway_key")),
+    Mutant("C20", "sqlite-answers-the-regex-listing-unanchored", "C20-R1", NSV, "SqlStorage.optimized_regex_list",
+           lambda f, t: setattr(f, "body", stmts("with sqlite3.connect(self.dbfile) as db:\n    db.create_function('REGEXP', 2, lambda pat, s: re.search(pat, s) is not None)\n"
+                                                 "    return dict(db.execute('SELECT name, uri FROM pyro_names WHERE name REGEXP ?', (regex,)).fetchall())")), also=("C14",)),
+    Mutant("C05", "multiplex-catch-all-formats-the-exception-eagerly", "C05-R1", MX, "SocketServer_Multiplex.handleRequest",
+           lambda f, t: replace_stmt(f, lambda s: isinstance(s, ast.Expr) and u(s).startswith("log.warning('error during handleRequest: %s; %s', ex_v"),
+                                     stmts("log.warning('error during handleRequest: %s; %s' % (ex_v, ''.join(tb)))"))),
+    Mutant("C13", "disconnect-handler-stringifies-the-hooks-exception", "C13-R1", ST, "ClientConnectionJob.__call__",
+           lambda f, t: replace_stmt(f, lambda s: isinstance(s, ast.Expr) and u(s) == "log.warning('Error in clientDisconnect: %s', x)",
+                                     stmts("log.warning('Error in clientDisconnect: ' + str(x))")), also=("C09",)),
 ]
 
 
@@ -697,6 +746,19 @@ def _move_out_of_with(fn, pred):
                         lst.insert(i + 1, inner)
                         return
     raise LookupError("statement inside a with block not found")
+
+
+def _worker_finally(f):
+    """Worker.run: `self.job = None; self.pool.notify_done(self)` moved into a finally of the try around the job"""
+    for body in stmt_lists(f):
+        for i, st in enumerate(body):
+            if isinstance(st, ast.Try) and any(u(x) == "self.job()" for x in st.body) and i + 2 < len(body) + 1:
+                tail = body[i + 1:i + 3]
+                if len(tail) == 2 and u(tail[0]) == "self.job = None" and "notify_done" in u(tail[1]):
+                    st.finalbody = tail
+                    del body[i + 1:i + 3]
+                    return
+    raise LookupError("Worker.run: try around the job followed by the slot reset and notify_done not found")
 
 
 def _drop_key(d, key):
